@@ -382,6 +382,36 @@ func c13Expect(c c13Case) c13Model {
 
 var c13Env = interp.NewExecEnv("sh")
 
+// c13Arith: a positional or special parameter inside an arithmetic
+// expansion stands for its value (a variable name may be handed to the
+// evaluator as it is, a parameter that is not a name may not).
+type c13Arith struct {
+	Src  string   `json:"src"`
+	Args []string `json:"args"`
+	Want string   `json:"want"`
+}
+
+func checkC13Arith(c c13Arith) error {
+	cmd, _, err := parser.ParseCommand("c13", "_ "+c.Src)
+	if err != nil {
+		return fmt.Errorf("harness: %q does not parse: %v", c.Src, err)
+	}
+	env := interp.NewExecEnv("sh", c.Args...)
+	env.Opts = interp.NoGlob
+	var got []string
+	var gerr error
+	if e := guard(func() error {
+		got, gerr = env.Expand(cmd.(*ast.Cmd).Expr.(*ast.SimpleCmd).Args[1], 0)
+		return nil
+	}); e != nil {
+		return fmt.Errorf("Expand(%s) with args %q %v", c.Src, c.Args, e)
+	}
+	if gerr != nil || len(got) != 1 || got[0] != c.Want {
+		return fmt.Errorf("Expand(%s) with args %q = %q, %v; want [%q]", c.Src, c.Args, got, gerr, c.Want)
+	}
+	return nil
+}
+
 func checkC13(c c13Case) (skip string, err error) {
 	src := "_ " + c.source()
 	cmd, _, perr := parser.ParseCommand("c13", src)
@@ -486,6 +516,7 @@ func oracleSnapshot(w ast.Word) string {
 }
 
 func init() {
+	reg("C13", "arith", checkC13Arith)
 	reg("C13", "table", func(c c13Case) error {
 		_, err := checkC13(c)
 		return err
@@ -591,6 +622,44 @@ func TestC13(t *testing.T) {
 				}
 			}
 		}
+	}
+	// positional and special parameters inside arithmetic expansions
+	if sh == 0 {
+		args := []string{"7", "30", "3", "4", "5", "6", "07", "8", "9", "100", "11"}
+		val := map[string]int{"1": 7, "2": 30, "10": 100, "11": 11, "#": 11, "9": 9}
+		k := 0
+		for name, v := range val {
+			forms := []string{"${" + name + "}"}
+			if len(name) == 1 {
+				forms = append(forms, "$"+name)
+			}
+			for _, f := range forms {
+				for _, e := range []struct {
+					tmpl string
+					fn   func(int) int
+				}{
+					{"%s + 1", func(x int) int { return x + 1 }}, {"%s*2", func(x int) int { return x * 2 }}, {"2 * %s - $#", func(x int) int { return 2*x - 11 }},
+					{"%s", func(x int) int { return x }}, {"(%s) % 4", func(x int) int { return x % 4 }}, {"-%s", func(x int) int { return -x }}, {"%s > 8 ? %s : 0", func(x int) int {
+						if x > 8 {
+							return x
+						}
+						return 0
+					}},
+				} {
+					expr := strings.ReplaceAll(e.tmpl, "%s", f)
+					for _, src := range []string{"$((" + expr + "))", `"$((` + expr + `))"`, "$(( " + expr + " ))"} {
+						c := c13Arith{Src: src, Args: args, Want: strconv.Itoa(e.fn(v))}
+						if err := checkC13Arith(c); err != nil {
+							fail(t, "C13", "arith", c, "%v", err)
+						}
+						k++
+					}
+				}
+			}
+		}
+		st.EvalN(int64(k), int64(k))
+		st.ClassN("parameters_inside_arithmetic_expansions", int64(k))
+		st.Note("%d arithmetic expansions that read $1 $2 $9 ${10} ${11} $# (values that differ from the parameter's own number) in 7 expressions, unquoted and double-quoted", k)
 	}
 	st.Exhaustive = true
 	st.Note("full product: %d parameter states (ordinary unset/null/non-null, positional incl. $10, $@, $*, specials) x 14 operators x operator words (literal, quoted, $var, \"$var\", laziness canary, patterns) x unquoted/double-quoted x nounset on/off x 5 IFS settings = %d cells", len(states), idx)
